@@ -2,7 +2,7 @@
    Only statements, each closed by [exact] (short glue allowed) and followed by Print Assumptions.
    [ang] is the type of an (azimuth, dip) pair and [dir] its direction vector (the trigonometry is a parameter);
    [augment s] is the survey table with its first row repeated at depth 0, exactly as the code builds it. *)
-From GV Require Import Prelude.Base Model.GridIndex Model.Desurvey Proofs.DesurveyProofs.
+From GV Require Import Prelude.Base Model.GridIndex Model.Desurvey Model.HoleData Proofs.DesurveyProofs Proofs.HoleDataProofs.
 From Coq Require Import QArith.
 Close Scope Q_scope.
 
@@ -89,6 +89,87 @@ Proof.
   unfold desurvey. exact (desurvey_on_beyond ang dir collar (augment s) d n tn l v p H1 H2 Hk Hlt Hleg Hloc).
 Qed.
 Print Assumptions C18_beyond_last.
+
+(* ------------------------------------------------------------------ depth / interval data additions *)
+(* [pos] is the hole's desurvey function (fixed while data are added); histories are sequences of add_data calls,
+   each validate_depth_data / validate_interval_data followed by sort_depths *)
+
+(* after every history: every vertex that carries a DEPTH value sits at the position of that depth, every cell joins
+   the positions of (depths equal to) its FROM and TO values, DEPTH/FROM/TO stay aligned with vertices / cells *)
+Theorem C18_vertex_at_depth : forall (pos : Q -> V3) ops, Forall op_ok ops ->
+  let h := hrun pos empty_hole ops in
+  (forall dv i d, h_depth h = Some dv -> nth_error dv i = Some (Some d) -> nth_error (h_verts h) i = Some (pos d))
+  /\ (forall dv, h_depth h = Some dv -> length dv = length (h_verts h))
+  /\ match h_ft h with
+     | None => h_cells h = []
+     | Some (froms, tos) =>
+         length froms = length (h_cells h) /\ length tos = length (h_cells h)
+         /\ forall c a b f t, nth_error (h_cells h) c = Some (a, b) -> nth_error froms c = Some f -> nth_error tos c = Some t ->
+              (exists u, (u == f)%Q /\ nth_error (h_verts h) a = Some (pos u))
+              /\ (exists u, (u == t)%Q /\ nth_error (h_verts h) b = Some (pos u))
+     end.
+Proof.
+  intros pos ops Hops h. destruct (hrun_inv pos ops empty_hole (inv_empty pos) Hops) as [Hv [Hc Hl]].
+  split; [exact Hv|]. split; [intros dv H; apply (Hl dv H)|exact Hc].
+Qed.
+Print Assumptions C18_vertex_at_depth.
+
+(* sort_depths moves whole rows: every vertex keeps its position, its DEPTH and the value of every vertex child *)
+Theorem C18_sort_keeps_rows : forall (pos : Q -> V3) h, inv_weak pos h ->
+  forall i, i < length (h_verts h) ->
+  exists k, nth_error (h_verts (sort_depths h)) k = nth_error (h_verts h) i
+    /\ (forall dv, h_depth h = Some dv -> exists dv', h_depth (sort_depths h) = Some dv' /\ onth dv' k = onth dv i)
+    /\ (forall c name vals, nth_error (h_vdata h) c = Some (name, vals) ->
+          exists vals', nth_error (h_vdata (sort_depths h)) c = Some (name, vals') /\ onth vals' k = onth vals i).
+Proof. exact sort_depths_rows. Qed.
+Print Assumptions C18_sort_keeps_rows.
+
+(* the full statement: every value of a depth call is attached, after the call, to a vertex within the tolerance *)
+Definition C18_values_attached_full : Prop :=
+  forall (pos : Q -> V3) ops name depth values tol j d v,
+    Forall op_ok ops -> depth <> [] -> length values = length depth -> (0 < tol)%Q ->
+    nth_error depth j = Some d -> nth_error values j = Some (Some v) ->
+    attached (hstep pos (hrun pos empty_hole ops) (AddDepth name depth values tol)) name d v tol.
+
+(* REFUTED: two depths of one call collocate with the same existing vertex; the earlier value is overwritten
+   (open finding depth-value-lost-collision) *)
+Theorem C18_values_attached_refuted : ~ C18_values_attached_full.
+Proof.
+  intros H.
+  assert (Hops : Forall op_ok collision_before) by (repeat constructor; discriminate).
+  specialize (H collision_pos collision_before 1 collision_depth collision_values (1 # 100)%Q 1 (29 # 2)%Q (-18)%Q
+                Hops ltac:(discriminate) eq_refl eq_refl eq_refl eq_refl).
+  apply attached_attachedb in H. rewrite (proj1 collision_witness) in H. discriminate.
+Qed.
+Print Assumptions C18_values_attached_refuted.
+
+(* PARTIAL: when no two entries of the call collocate with the same existing vertex, every value of the call is attached
+   to a vertex whose DEPTH is within the tolerance of its depth — right after the call (through sort_depths) and after
+   every later add_data call.  Missing for the full property: colliding entries; interval values (oracle + model only). *)
+Theorem C18_values_stay_attached_partial :
+  forall (pos : Q -> V3) ops name depth values tol j d v later,
+    Forall op_ok ops -> Forall op_ok later -> depth <> [] -> length values = length depth -> (0 < tol)%Q ->
+    no_collision (hrun pos empty_hole ops) depth tol ->
+    nth_error depth j = Some d -> nth_error values j = Some (Some v) ->
+    attached (hrun pos (hstep pos (hrun pos empty_hole ops) (AddDepth name depth values tol)) later) name d v tol.
+Proof. exact values_stay_attached. Qed.
+Print Assumptions C18_values_stay_attached_partial.
+
+(* non-vacuity of the partial theorem: a history with unsorted and collocated (but not colliding) additions *)
+Example C18_data_nonvacuous :
+  let pos := collision_pos in
+  let ops := [AddDepth 0 [10; 5; 20]%Q [Some 1; Some 2; Some 3]%Q (1 # 100)%Q;
+              AddInterval 1 [(1, 2); (2, 4)]%Q [Some 7; Some 8]%Q (1 # 100)%Q] in
+  let depth := [5 + (1 # 256); 7; 30]%Q in
+  Forall op_ok ops /\ no_collision (hrun pos empty_hole ops) depth (1 # 100)%Q
+  /\ attachedb (hstep pos (hrun pos empty_hole ops) (AddDepth 2 depth [Some 10; Some 20; Some 30]%Q (1 # 100)%Q))
+               2 (5 + (1 # 256))%Q 10%Q (1 # 100)%Q = true
+  /\ attachedb (hstep pos (hrun pos empty_hole ops) (AddDepth 2 depth [Some 10; Some 20; Some 30]%Q (1 # 100)%Q))
+               0 10%Q 1%Q (1 # 100)%Q = true.
+Proof.
+  split; [repeat constructor; discriminate|]. split; [|split; vm_compute; reflexivity].
+  unfold no_collision. vm_compute. repeat constructor. intros [].
+Qed.
 
 (* non-vacuity: a table with a repeated depth, first station at depth 0 *)
 Example C18_nonvacuous :
